@@ -66,13 +66,13 @@ void IdxSet::remove(int n, int m)
    int newnum = num - cpy;
    cpy = (size() - m >= cpy) ? cpy : size() - m;
 
-   do
+   // nothing has to be moved if the removed range reaches the end of the set
+   while(cpy > 0)
    {
       --num;
       --cpy;
       idx[n + cpy] = idx[num];
    }
-   while(cpy > 0);
 
    num = newnum;
 }
